@@ -47,3 +47,31 @@ class for_p2sh:
         if self._pay_to_script_prefix is None:
             return result is None
         return result == _addr(self._pay_to_script_prefix, h160)
+
+
+# ---------------------------------------------------------------- the address text determines prefix || hash
+import pycoin.encoding.b58 as _b58
+from contracts.c11_base58 import base58_roundtrip_spec, ascii_text
+
+
+def address_payload(prefix, h160):
+    """Base58Check-decode the address that AddressAPI builds for (prefix, hash)"""
+    api = AddressAPI(None, prefix, None, None)
+    return _b58.a2b_hashed_base58(api.for_p2pkh(h160))
+
+
+@contract("contracts.c08_address:address_payload")
+class c_address_payload:
+    """decoding a P2PKH address gives back exactly prefix || hash: two (prefix, hash) pairs with different concatenations never
+    share an address text (through the contracts of for_p2pkh and a2b_hashed_base58 and the Base58 round-trip theorem)"""
+    props = ["C08"]
+    sig = dict(prefix=Bytes(minlen=1, sample_max=2, interesting=[b"\x00", b"\x6f", b"\x1c\xb8"]), h160=Bytes(n=20))
+    returns = Bytes()
+
+    def hints(prefix, h160):
+        d = prefix + h160 + dsha256(prefix + h160)[:4]
+        base58_roundtrip_spec(d)
+        ascii_text(positional(58, dval_upto(256, d, len(d)), zpre_upto(256, d, len(d))))
+
+    def ensures_payload(prefix, h160, result):
+        return result == prefix + h160
